@@ -26,6 +26,6 @@ else:
 out = f"/verif/benign/{name}"
 os.makedirs(out, exist_ok=True)
 for f in ("patch.diff", "README.md"):
-    if os.path.exists(os.path.join(src, f)): shutil.copy(os.path.join(src, f), out)
+    if os.path.exists(os.path.join(src, f)) and os.path.realpath(src) != os.path.realpath(out): shutil.copy(os.path.join(src, f), out)
 json.dump(meta, open(os.path.join(out, "meta.json"), "w"), indent=1)
 print(json.dumps({k: meta.get(k) for k in ("name", "patch_applies", "check_exit", "silent")}), meta.get("lines", [])[-2:] if not meta.get("silent") else "")
